@@ -621,8 +621,10 @@ class Explorer:
                         continue
                     alts.append(('flag', t[1].qualname, bits, '|'.join(nm for nm, v in mems if v & bits) or '0'))
             elif t[0] == 'enum':
+                only = c.opts.get('enum_cases', {}).get(p)      # optional: restrict the split to the named members
                 for i, (nm, _) in enumerate(self.index.enum_members(t[1])):
-                    alts.append(('enum', t[1].qualname, i, nm))
+                    if only is None or nm in only:
+                        alts.append(('enum', t[1].qualname, i, nm))
             elif t[0] == 'bool':
                 alts = [('bool', False), ('bool', True)]
             elif t[0] == 'union':
@@ -840,6 +842,13 @@ class Explorer:
         B = self.current.opts.get('bounded') if self.current is not None else None
         if B is None:
             return self._discharge(facts_pc, goal, timeout_ms)
+        self._enum_pins = []
+        if self.current.opts.get('bv_enum'):
+            # small bit-vector query: exhaustive evaluation (pyvc/bvenum.py); None = not applicable, use the solver
+            from .bvenum import enum_discharge
+            r = enum_discharge(self, facts_pc, goal, B)
+            if r is not None:
+                return r
         st, secs, backend, smt2 = self._discharge(facts_pc, goal, self.current.opts.get('bounded_try_ms', 3000), fallback=False)
         if st == 'unsat':
             return st, secs, backend, smt2
@@ -967,7 +976,7 @@ class Explorer:
         """bounded standard-model search for a counterexample of an open obligation"""
         from .refute import Concretizer, bounded_model, ghost_values
         g = z3.BoolVal(False) if ob.goal is False else as_z3bool(ob.goal)
-        formulas = list(ob.pc) + [z3.Not(g)]
+        formulas = list(ob.pc) + [z3.Not(g)] + list(getattr(self, '_enum_pins', None) or [])   # bvenum: the point found
         status = 'none'
         for B in (bounds or self.refute_bound):
             try:
